@@ -166,7 +166,8 @@ ReqDnEv(ev) ==
               { <<"C20.equality_iff_same_enumeration", ev.obs.eq = (NameOf(ev.args.h1) = NameOf(ev.args.h2))>>,
                 <<"C20.equality_symmetric", ev.obs.eq = ev.obs.eqRev>> }
          [] ev.op = "DnEncode" ->
-              { <<"C20.encoded_order_eq_enumeration", ev.obs.subject = Encoded(NameOf(ev.args.h))>> }
+              { <<"C20.encoded_order_eq_enumeration", ev.obs.subject = Encoded(NameOf(ev.args.h))>>,
+                <<"C20.encoded_issuer_order_eq_issuer_enumeration", "issuer" \in DOMAIN ev.args => ev.obs.issuer = Encoded(NameOf(ev.args.issuer))>> }
          [] OTHER -> {}
 
 NamesNext(ev) ==
